@@ -21,14 +21,14 @@ def isCmdOp (ty : Nat) : Bool :=
   ty == mds_PEG || ty == mds_MTAB
 
 /-- the linear fragment: rests, ties, notes of 1..65535 ticks, slur, commands with one or two
-argument bytes (`FLG` only with an argument that leaves drum mode off), and the rest / tie of
-length 0 (which `convert_track` drops without a trace) -/
+argument bytes, and the rest / tie of length 0 and the `CARRY` event (which `convert_track` drops
+without a trace) -/
 def linEv (ev : MEv) : Bool :=
   (ev.type == mds_REST && decide (1 ≤ ev.arg) && decide (ev.arg ≤ 65535)) ||
   (decide (mds_TIE ≤ ev.type) && decide (ev.type < mds_SLR) && decide (1 ≤ ev.arg) && decide (ev.arg ≤ 65535)) ||
   ev.type == mds_SLR ||
   isCmdOp ev.type ||
-  ((ev.type == mds_REST || ev.type == mds_TIE) && ev.arg == 0)
+  ((ev.type == mds_REST || ev.type == mds_TIE || ev.type == mds_CARRY) && ev.arg == 0)
 
 /-- the event can be played in mode `M` without changing it: a note byte sounds (drum flag off), is a
 tie, or names a known routine (drum flag on); a `FLG` command leaves the drum flag as it is -/
@@ -59,9 +59,9 @@ theorem ticks_append (M : Mode) (nS nM : Nat) (a b : List MEv) :
 /-! ### `encEv` on the event kinds -/
 
 /-- a rest or tie of length 0 emits nothing and is not remembered -/
-theorem encEv_zero (nS nM : Nat) (e : Enc) {ty : Nat} (h : ty = mds_REST ∨ ty = mds_TIE) :
+theorem encEv_zero (nS nM : Nat) (e : Enc) {ty : Nat} (h : (ty = mds_REST ∨ ty = mds_TIE) ∨ ty = mds_CARRY) :
     encEv nS nM e ⟨ty, 0⟩ = .ok e := by
-  rcases h with rfl | rfl <;> rfl
+  rcases h with (rfl | rfl) | rfl <;> rfl
 
 theorem encEv_other {nS nM : Nat} {e e1 : Enc} {ty arg : Nat} (hge : ty ≥ mds_SLR)
     (h : encOther nS nM e ty arg = .ok e1) (hne : ¬ (ty = mds_LPB ∧ e.breaks.head?.getD 0 ≠ 0) := by intro hh; exact absurd hh.1 (by decide)) :
@@ -152,7 +152,8 @@ theorem encEv_lin (M : Mode) (nS nM : Nat) (e : Enc) (ev : MEv) (hv : linEv ev =
   · -- length 0
     subst ha
     have hev : evTicks M nS nM ⟨ty, 0⟩ = [] := by
-      rcases hz with rfl | rfl <;> simp [evTicks, Mode.nt, noteTicks, mds_REST, mds_TIE, mds_SLR, mds_NOTE]
+      rcases hz with (rfl | rfl) | rfl <;>
+        simp +decide [evTicks, Mode.nt, noteTicks, mds_REST, mds_TIE, mds_SLR, mds_NOTE, mds_CARRY, isCmdOp]
     rw [hev]
     exact ⟨e, encEv_zero nS nM e hz, List.prefix_refl _, rfl, rfl,
       fun _ _ _ s O _ _ g => ⟨s, .refl _, Frame.rfl' _, by simpa using g⟩⟩
